@@ -148,7 +148,9 @@ def degree_rule(ctx: Ctx, rule: str) -> None:
         f = prog.func(mod, name)
         it = analyse(f)
         for line, msg in it.findings:
-            ctx.add(rule, f'{name}:typing', False, (f.file, line), f'homogeneity typing fails: {msg}', detail=msg)
+            # a clash of degrees is a contradiction; a statement the typing does not understand is not
+            clash = 'degrees differ' in msg or 'sum of terms of degrees' in msg
+            ctx.add(rule, f'{name}:typing', False if clash else None, (f.file, line), f'homogeneity typing fails: {msg}' if clash else f'homogeneity typing: statement not in a form the typing understands: {msg}', detail=msg, positive=clash)
         want = (MU - 1) if scaled else sp.Integer(0)
         ret = it.ret_name
         ctx.need(ret is not None and ret in it.bindings, f'{name} returns a dictionary it has filled')
@@ -171,7 +173,7 @@ def degree_rule(ctx: Ctx, rule: str) -> None:
             ctx.add(rule, f'{name}:{kind}', ok, (f.file, b.line),
                     f'ln G_i of {"alternatives alone" if kind == "alone" else "nest members"} is the log of a function homogeneous of degree {sp.simplify(deg)}'
                     + ('' if ok else f'; shift invariance needs degree {want} for every alternative'),
-                    detail=f'{kind}:{sp.simplify(deg)}')
+                    detail=f'{kind}:{sp.simplify(deg)}', positive=True)
             # multiplicity: the entry is written once per alternative
             good_loops = b.loops in (('nests.alone',),) if kind == 'alone' else (len(b.loops) in (1, 2) and not any('alone' in x for x in b.loops))
             ctx.add(rule, f'{name}:{kind}:loops', good_loops, (f.file, b.line), f'entry written under loops {b.loops}' + ('' if good_loops else ' - unexpected nesting'), detail=str(b.loops))
@@ -220,7 +222,7 @@ def availability_rule(ctx: Ctx, rule: str) -> None:
                     guarded = f'{av}[{idx}]' in factors
                 ctx.add(rule, f'{name}:availability', guarded and uses_util, (f.file, c.lineno),
                         f'each term of the nest sum is conditioned on {av}[{idx}] of the same alternative' if guarded and uses_util
-                        else f'term of the nest sum is not conditioned on {av}[{idx}]: {unparse(elt)[:90]}', detail=unparse(elt))
+                        else f'term of the nest sum is not conditioned on {av}[{idx}]: {unparse(elt)[:90]}', detail=unparse(elt), positive=True)
             # sibling: apart from the guard the two branches sum the same term
             ncomps = [c for st in none_branch for c in ast.walk(st) if isinstance(c, ast.ListComp)]
             if len(ncomps) != len(comps):
@@ -273,7 +275,7 @@ def availability_rule(ctx: Ctx, rule: str) -> None:
                 ctx.add(rule, f'{name}:branches', same, (f.file, cn.lineno),
                         'with and without availabilities the nest sum has the same term over the same alternatives' if same
                         else f'the nest sum without availabilities has the term {unparse(cn.elt)[:80]}, with availabilities {unparse(bare)[:80] if bare is not None else "?"}: the model changes when availabilities all equal to 1 are passed',
-                        detail='' if same else unparse(cn.elt))
+                        detail='' if same else unparse(cn.elt), positive=True)
             for st in none_branch:
                 if av in {x.id for x in ast.walk(st) if isinstance(x, ast.Name)}:
                     ctx.add(rule, f'{name}:availability:none', False, (f.file, st.lineno), f'{av} is used although it is None', unparse(st)[:80])
@@ -343,9 +345,12 @@ def ordered_rule(ctx: Ctx, rule: str) -> None:
         okn = nd is not None and seq(nd) < seq(assigns[proba]) and isinstance(nd.value, ast.BinOp) and isinstance(nd.value.op, ast.Add) and unparse(nd.value.left) == carried
         diffs = unparse(nd.value.right).split('[')[0] if okn else None
         okn = okn and unparse(nd.value.right) == f'{diffs}[{item}]'
-        ctx.add(rule, 'ordered_likelihood:next', okn, (f.file, nd.lineno if nd is not None else loop.lineno),
-                f'{nxt} = {unparse(nd.value) if nd is not None else "?"}' + ('' if okn else f'; the next threshold must be the current one ({carried}) plus a non-negative increment of this item'),
-                unparse(nd.value) if nd is not None else 'missing')
+        other = nd is not None and isinstance(nd.value, ast.BinOp) and isinstance(nd.value.op, ast.Add) and isinstance(nd.value.left, ast.Name) and unparse(nd.value.left) != carried \
+            and re.fullmatch(rf'\w+\[{re.escape(item)}\]', unparse(nd.value.right)) is not None
+        ctx.add(rule, 'ordered_likelihood:next', okn if (okn or other) else None, (f.file, nd.lineno if nd is not None else loop.lineno),
+                f'{nxt} = {carried} + {diffs}[{item}]' if okn else (f'{nxt} = {unparse(nd.value)}; the next threshold must be the current one ({carried}) plus a non-negative increment: with more than three categories the '
+                                                                   'thresholds are otherwise not increasing and the probabilities do not sum to one' if other else f'the way {nxt} is computed is not in the expected form ({carried} + increment of the item)'),
+                unparse(nd.value) if nd is not None else 'missing', positive=bool(other))
         upd = assigns.get(carried)
         oku = upd is not None and unparse(upd.value) == nxt and seq(upd) > seq(assigns[proba])
         ctx.add(rule, 'ordered_likelihood:carry', oku, (f.file, upd.lineno if upd is not None else loop.lineno), f'{carried} = {nxt} after the probability is stored' if oku else f'the threshold {carried} is not advanced to {nxt} after use', unparse(upd) if upd is not None else 'missing')
@@ -392,7 +397,17 @@ def ordered_rule(ctx: Ctx, rule: str) -> None:
         ctx.add(rule, f'{name}:forward', ok, g, f'{name} forwards its parameters with cdf={want}' if ok else f'{name} forwards {unparse(calls[0]) if calls else "nothing"}', unparse(calls[0]) if calls else '')
 
 
+#: obligations whose failure contradicts the property (rule, construct pattern, why); every other failure is 'not recognised'
+POSITIVE: list[tuple[str, str, str]] = [
+    ('C05.R6', r':record$', 'the record template interpreted from get_signature is not the one the engine parses for this tag'),
+    ('C05.R6', r'\.get_signature$', 'an id written in the record belongs to a node whose signature is not emitted before it'),
+    ('C05.R2', r':(alone|member):loops$', 'an entry of ln G_i is written under a loop nest that does not give one entry per alternative'),
+    ('C05.R4', r':(unavailable|chosen-availability|denominator)$', 'LogLogit.get_value matched with holes'),
+]
+
+
 def run(ctx: Ctx) -> None:
+    ctx.positive_table = list(POSITIVE)
     ctx.rule('C05.R1', 'log/probability twins: for the 7 pairs, the probability function is exp(<log function>(own parameters)) or the two are related '
              'branch by branch through the twin table (mev ~ logmev), with identical parameters')
     ctx.rule('C05.R2', 'shift invariance by homogeneity typing of the four MEV builders: every ln G_i (nest members and alternatives alone) is the log of a '
